@@ -112,6 +112,16 @@ def _bcast(op, a, b):
         if a.shape != b.shape:
             raise Unsupported(f"shape mismatch {a.shape} vs {b.shape}")
         return sp.Matrix(a.rows, a.cols, lambda i, j: op(a[i, j], b[i, j]))
+    ta, tb = isinstance(a, (tuple, list)), isinstance(b, (tuple, list))
+    if ta or tb:
+        # 1-D arrays kept as tuples of symbols (e.g. the components of one generator draw): element-wise
+        if _is_mat(a) or _is_mat(b):
+            raise Unsupported("1-D array combined with a matrix")
+        if ta and tb:
+            if len(a) != len(b):
+                raise Unsupported(f"length mismatch {len(a)} vs {len(b)}")
+            return tuple(op(x, y) for x, y in zip(a, b))
+        return tuple(op(x, b) for x in a) if ta else tuple(op(a, y) for y in b)
     if _is_mat(a):
         return a.applyfunc(lambda x: op(x, b))
     if _is_mat(b):
@@ -157,6 +167,24 @@ class Translator:
             return self.env[e.id]
         if e.id in self.consts:
             return self.consts[e.id]
+        mod = getattr(self, "module", None)
+        if mod is not None and e.id not in getattr(self, "_resolving", set()):
+            # a module-level constant (bound exactly once at top level to a closed expression)
+            defs = [st for st in mod.tree.body if isinstance(st, (ast.Assign, ast.AnnAssign)) and st.value is not None
+                    and any(isinstance(t, ast.Name) and t.id == e.id for t in (st.targets if isinstance(st, ast.Assign) else [st.target]))]
+            rebinds = [n for n in ast.walk(mod.tree) if isinstance(n, ast.Global) and e.id in n.names]
+            if len(defs) == 1 and not rebinds:
+                self._resolving = getattr(self, "_resolving", set()) | {e.id}
+                try:
+                    saved_env, self.env = self.env, {}
+                    try:
+                        val = self.tr(defs[0].value)
+                    finally:
+                        self.env = saved_env
+                finally:
+                    self._resolving = self._resolving - {e.id}
+                self.consts[e.id] = val
+                return val
         return self.v.atom(e.id)
 
     def _UnaryOp(self, e):
@@ -244,6 +272,10 @@ class Translator:
                 if isinstance(idx, ast.Tuple):
                     ij = [int(self.tr(x)) for x in idx.elts]
                     return base[ij[0], ij[1]]
+                if isinstance(idx, ast.Slice) and isinstance(base, (list, tuple)) and idx.step is None:
+                    lo = int(self.tr(idx.lower)) if idx.lower is not None else None
+                    hi = int(self.tr(idx.upper)) if idx.upper is not None else None
+                    return tuple(base[lo:hi])
                 return base[int(self.tr(idx))]
             except (TypeError, ValueError, IndexError):
                 pass
@@ -270,6 +302,11 @@ class Translator:
             "np.sign": sp.sign, "np.abs": sp.Abs, "abs": sp.Abs, "np.fabs": sp.Abs, "math.fabs": sp.Abs,
             "float": lambda x: x, "int": lambda x: x, "np.float64": lambda x: x, "np.asarray": lambda x: x, "np.array": lambda x: x,
         }
+        if f in ("np.array", "np.asarray", "numpy.array", "numpy.asarray") and len(args) == 1 and set(kw) <= {"dtype"}:
+            x = self.tr(args[0])
+            if isinstance(x, (list, tuple)) and x and all(isinstance(r, (list, tuple)) for r in x) and len({len(r) for r in x}) == 1:
+                return sp.Matrix([list(r) for r in x])  # a literal 2-D array
+            return x
         if f in one and len(args) == 1 and not kw:
             x = self.tr(args[0])
             fn = one[f]
